@@ -755,6 +755,13 @@ func (e *Engine) sliceInstr(st *State, th *Thread, fr *Frame, x *ssa.Slice, sol 
 		}
 		return set(StrSubstr(s, BVToInt(lo), BVToInt(BVSub(hi, lo))))
 	}
+	if bs, ok := base.(Bytes); ok {
+		// []byte view of a string: b[:] (the only form used by the kernels)
+		if (lo == nil || (lo.Const && lo.U == 0)) && hi == nil {
+			return set(bs)
+		}
+		panic(unsupported("sub-slicing a []byte(string) view"))
+	}
 	var obj, off, ln, cp int
 	switch b := base.(type) {
 	case Slice:
